@@ -643,7 +643,8 @@ func c14Fix(w *W, id int) {
 					}
 				}
 			}
-			if used[day] {
+			// the same day may be named again later in one fix-up string (the segments apply in order); mostly it is not
+			if used[day] && rng.Intn(3) != 0 {
 				continue
 			}
 			used[day] = true
@@ -660,12 +661,23 @@ func c14Fix(w *W, id int) {
 			}
 			ni := rng.Intn(len(names))
 			nr := hrec{day: day, name: names[ni], work: rng.Intn(2) == 0, target: day}
-			switch rng.Intn(3) {
+			switch rng.Intn(4) {
 			case 0:
 				nr.target = day[:4] + "1001"
 			case 1:
 				if exists {
 					nr.target = old.target
+				}
+			case 2:
+				// a correction of the target alone: name and flag as recorded
+				if exists {
+					nr.name, nr.work = old.name, old.work
+					for i, n := range names {
+						if n == old.name {
+							ni = i
+						}
+					}
+					nr.target = day[:4] + []string{"0101", "0501", "1001", "0405"}[rng.Intn(4)]
 				}
 			}
 			dt += day + string(rune('0'+ni)) + map[bool]string{true: "0", false: "1"}[nr.work] + nr.target
